@@ -245,6 +245,17 @@ fn add_stage(
         None => return Err(TyperError::PipelineEntryPointFunctionUnknown(location)),
     };
 
+    // A function template has no single function that could be the entry point
+    let is_template = !context
+        .module
+        .function_registry
+        .get_function_signature(func_id)
+        .template_params
+        .is_empty();
+    if is_template {
+        return Err(TyperError::PipelineEntryPointFunctionUnknown(location));
+    }
+
     // The name may resolve to an intrinsic or to a function that was only declared
     // Neither has a body that could be used as an entry point
     let function_impl = match context
